@@ -9,6 +9,7 @@ import (
 	"os"
 	"strconv"
 	"strings"
+	"sync/atomic"
 	"testing"
 	"time"
 
@@ -115,10 +116,25 @@ func runPump(tt *testing.T, prop string, tape *simrt.Tape, keep bool) (out simrt
 			killAt = 1 + tape.Choose(60)
 		}
 		maxSteps := 60 + tape.Choose(240)
-		w.Log.Addf("workers=%d rate=%d du=%d lat=%v fail=%d signals=%d arms=%v killAt=%d", workers, rate, du, rt.lat, rt.fail, signals, arms, killAt)
+		exhaustAfter := 0
+		if prop == "C02" && tape.Prob(1, 4) {
+			exhaustAfter = 1 + tape.Choose(12)
+		}
+		w.Log.Addf("workers=%d rate=%d du=%d lat=%v fail=%d signals=%d arms=%v killAt=%d exhaust=%d", workers, rate, du, rt.lat, rt.fail, signals, arms, killAt, exhaustAfter)
 		sample = map[string]any{"workers": workers, "rate_per_s": rate, "duration": du.String(), "signals": signals, "armed_breakpoints": len(arms), "kill_at_step": killAt}
 		w.Activate()
 		tgt := vegeta.NewStaticTargeter(vegeta.Target{Method: "GET", URL: "http://sim.test/"})
+		if exhaustAfter > 0 {
+			// a targets source that runs dry (a lazily read file): the hit that finds it empty stops the attack
+			// while others are still in flight
+			inner, drawn := tgt, new(atomic.Int64)
+			tgt = func(t *vegeta.Target) error {
+				if drawn.Add(1) > int64(exhaustAfter) {
+					return vegeta.ErrNoTargets
+				}
+				return inner(t)
+			}
+		}
 		res := atk.Attack(tgt, vegeta.Rate{Freq: rate, Per: time.Second}, du, "pump")
 		done := make(chan error, 1)
 		var pm *prom.Metrics
@@ -241,9 +257,15 @@ func runPump(tt *testing.T, prop string, tape *simrt.Tape, keep bool) (out simrt
 					}
 					seen[got[i].Seq] = true
 				}
-				if sent < 2 && int64(len(got)) != rt.started.Load() {
+				onFile := int64(0)
+				for i := range got {
+					if got[i].Error != vegeta.ErrNoTargets.Error() {
+						onFile++ // a hit that got a target reached the transport
+					}
+				}
+				if sent < 2 && onFile != rt.started.Load() {
 					// with fewer than two signals the pump must keep writing until the channel is closed
-					fail("C02.pump-returned-early", "the pump returned after %d signal(s) with %d results on the file although %d hits had reached the transport", sent, len(got), rt.started.Load())
+					fail("C02.pump-returned-early", "the pump returned after %d signal(s) with %d results of sent requests on the file although %d hits had reached the transport (targets ran dry after %d: %v)", sent, onFile, rt.started.Load(), exhaustAfter, exhaustAfter > 0)
 				}
 				if sent < 2 {
 					// the pump ran until the channel was closed: every sequence number 0..n-1 is there
